@@ -51,6 +51,15 @@ class SelectedSet:
             self._set.discard(replace)
         self._set.add(selected)
 
+    def discard(self, selected: SelectedMailbox) -> None:
+        """Remove a selected mailbox object from the set.
+
+        Args:
+            selected: The selected mailbox object.
+
+        """
+        self._set.discard(selected)
+
     @property
     def any_selected(self) -> SelectedMailbox | None:
         """A single, random object in the set of selected mailbox objects.
@@ -356,6 +365,15 @@ class SelectedMailbox:
         """Session-only flags for the mailbox."""
         return self._session_flags
 
+    def deselect(self) -> None:
+        """The session no longer has the mailbox selected: take this object
+        out of the set of selected mailbox objects right away, instead of
+        leaving that to the garbage collector.
+
+        """
+        if self._selected_set is not None:
+            self._selected_set.discard(self)
+
     def set_deleted(self) -> None:
         """Marks the selected mailbox as having been deleted."""
         self._is_deleted = True
@@ -406,6 +424,10 @@ class SelectedMailbox:
                    self._session_flags, self._selected_set, self._lookup,
                    _mod_sequence=self._mod_sequence,
                    _prev=frozen, _messages=self._messages)
+        if self._selected_set is not None:
+            # the copy takes this object's place, do not wait for the
+            # garbage collector to notice
+            self._selected_set.add(copy, replace=self)
         if self._prev is not None:
             with_uid: bool = getattr(command, 'uid', False)
             untagged = self._compare(self._prev, frozen, with_uid)
